@@ -13,6 +13,10 @@ impl Events {
     }
     /// Get the next [`Event`].
     pub fn next(&mut self) -> Option<Event> {
+        #[cfg(feature = "verif-hooks")]
+        if let Some(ev) = VERIF_QUEUE.with(|q| q.borrow_mut().pop_front()) {
+            return Some(Event::Key(ev));
+        }
         match event::poll(Duration::from_secs(0)) {
             Ok(true) => event::read().ok(),
             _ => None,
@@ -25,4 +29,16 @@ impl Events {
             _ => None,
         })
     }
+}
+
+#[cfg(feature = "verif-hooks")]
+thread_local! {
+    static VERIF_QUEUE: std::cell::RefCell<std::collections::VecDeque<KeyEvent>> =
+        std::cell::RefCell::new(std::collections::VecDeque::new());
+}
+
+/// Verification hook: queue a key event that [`Events::next`] returns before polling the terminal.
+#[cfg(feature = "verif-hooks")]
+pub fn verif_push(ev: KeyEvent) {
+    VERIF_QUEUE.with(|q| q.borrow_mut().push_back(ev));
 }
